@@ -9,6 +9,12 @@ From Coq Require Import Permutation.
    import paths are distinct; p is selected in both, directly or through All; under All each run has a direct package,
    i.e. loads the same previous gengo.sum): if both succeed, every file of p's directory other than gengo.sum is the
    same afterwards.  For every env, every list of stateful generators, every other content of the two worlds. *)
+(* WHAT IS DEFINITIONAL: that every (package, generator) pair starts from a fresh instance and a fresh, empty buffer is
+   HARD-WIRED in the model ([gen_run] starts [call_loop] from [g_new g p] with an empty body, Model/Pipeline.v 306-314,
+   following context.go 191-204); it is not derived from anything, and there is no import tracker in this model at all.
+   It is tied to the code by the C05 harness only (stateful scripted generators run by the real Execute, compared with
+   this model on every case).  What IS proved below is the consequence: given that, no other package's effects or
+   state reach a package's directory, for every env, every generator state machine, every order. *)
 Theorem C05_independent :
   forall (E : env) a gens s w1 w2 p f,
     w_modroot w1 = w_modroot w2 ->
@@ -60,6 +66,8 @@ Print Assumptions C05_localised.
 
 (* non-vacuity: a generator that renders its call counter and emits a helper once per instance, on two packages
    in one All run: the second package starts from a fresh instance *)
+(* (the fresh instance seen here is the model's [g_new wc_gen p], by definition; the Go side of the same scenario is
+   what the C05 harness observes) *)
 Example C05_example_stateful :
   exec_outcome (wit_env true) wc_args wc_world [wc_gen] wc_fs = Done /\
   fs_lookup (bs "b", bs "zz_generated.g1.go") (exec_fs (wit_env true) wc_args wc_world [wc_gen] wc_fs)
@@ -83,6 +91,9 @@ Require Gengo.Model.Generators Gengo.Proofs.GeneratorsPipe.
 Module GN := Gengo.Model.Generators.
 Module GP := Gengo.Proofs.GeneratorsPipe.
 
+(* ("fresh per package" is the model's [g_new] per (package, generator) — definitional, see the note above
+   C05_independent; the theorem proves that the pipeline's run of the instance IS the generator model's own run from
+   its initial state, and what file results) *)
 Theorem C05_deepcopy_fresh_per_package :
   forall (E : env) fx graph vis print_method fuel a w gens s p,
     order_ok E -> NoDup (map g_name gens) -> world_ok w ->
